@@ -14,7 +14,8 @@ PROP = "C15"
 def relaxed_non_key_params(plan):
     """(member idx, param idx) relaxed by the member although no key bounds that bare parameter (D7's shape)"""
     f = plan.families[0]
-    keyed = {k.bounded[1] for k in f.keys if k.bounded[0] == "tp"}
+    # a (bounded, trait) pair is a dispatch key only if some member binds an associated type of it (all-wildcard columns are pruned)
+    keyed = {k.bounded[1] for ki, k in enumerate(f.keys) if k.bounded[0] == "tp" and any(m.row[ki] is not None for m in f.members)}
     return [(mi, p) for mi, m in enumerate(f.members) for p in m.unsized if p not in keyed]
 
 
